@@ -210,6 +210,7 @@ var specC26s = vstat.Spec[c26sCase]{
 	Gen:         genC26s,
 	Check:       checkC26s,
 	Inflight:    true,
+	Confirm:     true,
 }
 
 func TestC26Session(t *testing.T)       { vstat.Check(t, specC26s) }
